@@ -357,3 +357,6 @@ class GHE(BaseGHE):
         )
 
         self.bhe.b.H = returned_height
+        # The solver's last evaluation is not necessarily at the returned height (e.g. when the height is clamped
+        # at the lower bound it was at the upper bound), so make the stored temperatures those of the returned height
+        self.simulate(method=method)
